@@ -152,7 +152,25 @@ func VerifyAuthRulesAtState(ctx context.Context, sp StateProvider, eventToVerify
 	if ctx.Err() != nil {
 		return fmt.Errorf("gomatrixserverlib.VerifyAuthRulesAtState: context cancelled: %w", ctx.Err())
 	}
-	if err := checkAllowedByAuthEvents(eventToVerify, roomState, nil, userIDForSender); err != nil {
+	// The event has to be allowed by the state before it, so judge it against the events that state
+	// holds for the (type, state_key) pairs the auth rules need for it, and not just against those of
+	// the event's own auth_events that happen to be part of that state.
+	stateByTuple := make(map[StateKeyTuple]PDU, len(roomState))
+	for _, stateEvent := range roomState {
+		if stateEvent == nil || stateEvent.StateKey() == nil {
+			continue
+		}
+		stateByTuple[StateKeyTuple{EventType: stateEvent.Type(), StateKey: *stateEvent.StateKey()}] = stateEvent
+	}
+	authEvents, _ := NewAuthEvents(nil)
+	for _, tuple := range StateNeededForAuth([]PDU{eventToVerify}).Tuples() {
+		if stateEvent, ok := stateByTuple[tuple]; ok {
+			if err := authEvents.AddEvent(stateEvent); err != nil {
+				return fmt.Errorf("gomatrixserverlib.VerifyAuthRulesAtState: %w", err)
+			}
+		}
+	}
+	if err := Allowed(eventToVerify, authEvents, userIDForSender); err != nil {
 		return fmt.Errorf(
 			"gomatrixserverlib.VerifyAuthRulesAtState: event %s is not allowed at state %s : %w",
 			eventToVerify.EventID(), eventToVerify.EventID(), err,
